@@ -1083,6 +1083,12 @@ class Interp(ModelMixin):
             items = [self.module_global(mod, x, st) for x in expr.elts]
             if all(isinstance(x, (Const, NoneV, TupleV, ClsV, FuncV)) for x in items):
                 return TupleV(tuple(items))
+        if isinstance(expr, ast.Dict) and all(k is not None for k in expr.keys):
+            # a module-level table (e.g. tag -> class): evaluated to an exact mapping when every key and value is a literal / class / function
+            keys = [self.module_global(mod, k, st) for k in expr.keys]
+            vals = [self.module_global(mod, v, st) for v in expr.values]
+            if all(isinstance(x, (Const, TupleV, ClsV)) for x in keys) and all(isinstance(x, (Const, NoneV, TupleV, ClsV, FuncV)) for x in vals):
+                return Ref('dict', st.new(DictE(tuple(zip(keys, vals)), True)))
         if isinstance(expr, (ast.Name, ast.Attribute)):
             tgt = self.prog.resolve_name_expr(mod, expr)
             if isinstance(tgt, ClassInfo):
